@@ -25,6 +25,6 @@ CHECKS["C13"] = dict(
                 "subscribers each; exact multiset comparison of notifications per subscriber. Sampled, not exhaustive; no absence claim."),
     level_note=("Trusted: the harness transports and barrier, the stored-digest model (re-read from the engine after every step), rapid, the Go "
                 "toolchain. Slow subscribers (relay overflow) are outside the property's 'keeps up' condition and not generated."),
-    tests=[dict(name="TestC13", quick=dict(cases=3000, shards=2, shrinktime="30s"),
+    tests=[dict(name="TestC13", quick=dict(cases=1000, shards=6, shrinktime="30s"),
                 thorough=dict(cases=7000, shards=16, timeout=1500, shrinktime="120s"))],
 )
